@@ -129,6 +129,13 @@ func (r *runner) runJob(j job) {
 // prints. It returns how many results were received.
 func (r *runner) runHost(variant string, idx []int) (int, []byte, error) {
 	cmd := exec.Command(filepath.Join(r.hosts, variant))
+	// an empty scratch directory for the host (cases parsed through ParseFile write their input there); owned by this
+	// process so that it goes away however the host ends (timeout, stack overflow, kill)
+	if d, derr := os.MkdirTemp("", "pvhost"); derr == nil {
+		defer os.RemoveAll(d)
+		cmd.Dir = d
+		cmd.Env = append(os.Environ(), "PVHOST_SCRATCH="+d)
+	}
 	stdin, err := cmd.StdinPipe()
 	if err != nil {
 		return 0, nil, err
